@@ -23,7 +23,8 @@ META = {
         'given, otherwise upgrade.  Not decided: sequences of mutations as executions (covered inductively by D2+D4).'
         ' Also (D2): a derived grid whose rows are stored without validation (result._row = ...) is created with self.version / self._version.'
         ' Also (D1): no earlier branch of the JSON reader returns a list/dict (the empty ones included) before its version gate.  (D2) an own Grid.extend walks its argument once.'
-        ' Also (D2): the validate callback of the ordered maps is never rebound or removed after construction (copy / pickle hooks).'),
+        ' Also (D2): the validate callback of the ordered maps is never rebound or removed after construction (copy / pickle hooks).'
+        " Round 9: (D1) Version.nearest is pure (one answer per version whatever was asked before); (D2) every column metadata object the constructor stores is one it built with this grid's validator."),
     'rule_text': 'obligations = 5 kinds x 5 sites, entry paths, gate comparisons, logic facts',
     'trusted_base': ['MutableMapping.update/setdefault reduce to __setitem__; MutableSequence.append/extend/+= reduce to insert'],
 }
